@@ -23,6 +23,8 @@ var ExtraDataType = BasicListType(Uint8Type, MAX_EXTRA_DATA_BYTES)
 type ExtraData []byte
 
 func (otx *ExtraData) Deserialize(dr *codec.DecodingReader) error {
+	// decode into a recycled object: dr.ByteList keeps a longer old length
+	*otx = (*otx)[:0]
 	return dr.ByteList((*[]byte)(otx), MAX_EXTRA_DATA_BYTES)
 }
 
